@@ -41,6 +41,15 @@ Proof.
   discriminate.
 Qed.
 
+(* a decidable sufficient condition for TxProofs.script_ok, for concrete examples *)
+Lemma script_ok_dec (s : bytes) :
+  (match from_bytes s with Ok _ => true | _ => false end) && negb (truncated_tail s) = true -> script_ok s.
+Proof.
+  intros H. apply andb_true_iff in H as [H1 H2]. split.
+  - destruct (from_bytes s) as [b| |]; try discriminate. exists b; reflexivity.
+  - destruct (truncated_tail s); [discriminate|reflexivity].
+Qed.
+
 Section Fresh.
   Variable H : bytes -> bytes.
 
